@@ -1,0 +1,93 @@
+//! Verification seams (cargo feature `verif-hooks`, off by default).
+//!
+//! A per-thread handler can observe the sweep event by event (to bound, cancel or
+//! interleave a computation) and can switch off the two fast paths of
+//! `boolean_operation` (bounding-box shortcut, early sweep exit) by widening the
+//! bounding boxes they look at. Without an installed handler every function here is
+//! a no-op / the identity, so behaviour is that of the build without the feature.
+
+use crate::boolean::{BoundingBox, Float};
+use geo_types::Coord;
+use std::cell::RefCell;
+use std::rc::Rc;
+
+#[derive(Clone, Copy, PartialEq, Eq, Debug)]
+pub enum Site {
+    /// `boolean_operation` is about to return `trivial_result`.
+    Shortcut,
+    /// `subdivide` is about to leave its loop with events still queued.
+    EarlyBreak,
+    /// `possible_intersection` returned 2 and fields are recomputed.
+    Recompute,
+}
+
+pub trait Handler {
+    /// Called once per event popped by `subdivide`, before it is processed. May panic
+    /// (cancellation, step budget) or block (cooperative scheduling).
+    fn on_event(&self) {}
+    fn probe(&self, _site: Site) {}
+    fn disable_shortcut(&self) -> bool {
+        false
+    }
+    fn disable_early_exit(&self) -> bool {
+        false
+    }
+}
+
+thread_local! {
+    static HANDLER: RefCell<Option<Rc<dyn Handler>>> = const { RefCell::new(None) };
+}
+
+/// Installs (or with `None` removes) the handler of the calling thread; returns the old one.
+pub fn set_handler(handler: Option<Rc<dyn Handler>>) -> Option<Rc<dyn Handler>> {
+    HANDLER.with(|h| h.replace(handler))
+}
+
+// The handler is cloned out of the slot first, so that it may panic, block or replace
+// itself while it runs.
+fn current() -> Option<Rc<dyn Handler>> {
+    HANDLER.with(|h| h.borrow().clone())
+}
+
+pub fn on_event() {
+    if let Some(h) = current() {
+        h.on_event()
+    }
+}
+
+pub fn probe(site: Site) {
+    if let Some(h) = current() {
+        h.probe(site)
+    }
+}
+
+fn whole_plane<F: Float>() -> BoundingBox<F> {
+    BoundingBox {
+        min: Coord {
+            x: F::neg_infinity(),
+            y: F::neg_infinity(),
+        },
+        max: Coord {
+            x: F::infinity(),
+            y: F::infinity(),
+        },
+    }
+}
+
+type Boxes<F> = (BoundingBox<F>, BoundingBox<F>);
+
+/// Boxes the disjointness test looks at: the true ones, or the whole plane (never disjoint).
+pub fn boxes_for_shortcut<F: Float>(sbbox: BoundingBox<F>, cbbox: BoundingBox<F>) -> Boxes<F> {
+    match current() {
+        Some(h) if h.disable_shortcut() => (whole_plane(), whole_plane()),
+        _ => (sbbox, cbbox),
+    }
+}
+
+/// Boxes the sweep bounds itself with: the true ones, or the whole plane (no early exit).
+pub fn boxes_for_sweep<F: Float>(sbbox: BoundingBox<F>, cbbox: BoundingBox<F>) -> Boxes<F> {
+    match current() {
+        Some(h) if h.disable_early_exit() => (whole_plane(), whole_plane()),
+        _ => (sbbox, cbbox),
+    }
+}
